@@ -15,7 +15,11 @@ for line in k['fixed']:
             e['props'].append(m.group(1))
 # reverts that no longer apply because a later fix touches the same lines;
 # each has a hand-written equivalent in the catalogue
-SKIP = {'80ae5d1',     # -> c10-revert-private-params
+SKIP = {'839da46',     # -> c17-revert-nonascii-comment
+        '5e6c0b7',     # made redundant by ac61c38: forward_local_port()
+                       # itself now closes a listener created on a
+                       # closed connection (revert-ac61c38 is caught)
+        '80ae5d1',     # -> c10-revert-private-params
         '3bae12f',     # -> c20-revert-socks-close
         '1c9f7cb'}     # -> c09-revert-drain-redirected
 out = []
